@@ -117,6 +117,9 @@ type World struct {
 	unlocks      int
 	Sched        Scheduler
 	RealLock     bool
+	SharedOther  bool // hand every request the same 'other' callback slice (one with spare capacity)
+	otherMu      sync.Mutex
+	otherShared  map[string][]interface{}
 	lockMu       sync.Mutex
 	lockCond     *sync.Cond
 	lockOwn      map[string]string
